@@ -104,20 +104,33 @@ def evalDict (fns : UserFns) (env : List (String × PV)) :
 def paramsOf (m : Method) : List Param :=
   m.out.required.map (fun a => ⟨a.py, false⟩) ++ m.out.optional.map (fun a => ⟨a.py, true⟩)
 
-/-- import the client module (compile the `def`), call `client.<method>(**given)` and run its body
-    up to the arguments of `self.execute(...)` -/
-def callMethod (fns : UserFns) (m : Method) (given : List (String × PV)) : Except PyErr Sent :=
-  match checkDef selfName (paramsOf m) Tables.kwargsName with
+/-- the parameters as compiled inside `class cls` (private-name mangling) -/
+def compiledParams (cls : String) (m : Method) : List Param :=
+  (paramsOf m).map (fun p => { p with name := mangle cls p.name })
+
+/-- a dict value as compiled inside `class cls`: the parameter reference is mangled like the
+    parameter itself (mangling of the *function* name of a `serialize` call is not modelled) -/
+def compiledVal (cls : String) : DictVal → DictVal
+  | .name p => .name (mangle cls p)
+  | .call f p => .call f (mangle cls p)
+
+def compiledDict (cls : String) (m : Method) : List (String × DictVal) :=
+  m.out.dict.map (fun kv => (kv.1, compiledVal cls kv.2))
+
+/-- import the client module (compile the `def` inside `class cls`), call `client.<method>(**given)`
+    and run its body up to the arguments of `self.execute(...)` -/
+def callMethod (fns : UserFns) (cls : String) (m : Method) (given : List (String × PV)) : Except PyErr Sent :=
+  match checkDef selfName (compiledParams cls m) Tables.kwargsName with
   | .error e => .error e
   | .ok () =>
-    match bindCall selfName (paramsOf m) PV.unset given with
+    match bindCall selfName (compiledParams cls m) PV.unset given with
     | .error e => .error e
     | .ok (env, extra) =>
       match PyCall.lookup gqlName env with
       | some _ => .error notCallable                   -- `gql(...)` calls the parameter named gql
       | none =>
         let env1 := (m.locals.query, PV.str m.opText) :: env     -- L.query = gql(…)
-        match evalDict fns env1 m.out.dict with
+        match evalDict fns env1 (compiledDict cls m) with
         | .error e => .error e
         | .ok (vars, calls) => .ok ⟨m.opText, vars, extra, calls⟩
 
@@ -139,6 +152,19 @@ structure VarDecl where
 
 def VarDecl.toVarDef (d : VarDecl) : VarDef := ⟨d.name, d.type⟩
 def VarDecl.toIField (d : VarDecl) : Coerce.IField := ⟨d.name, Coerce.ofTypeRef d.type, d.default⟩
+
+/-- `schema.type_map.get(n)` as the generators' `isinstance` tests see it, from the coercion view
+    of the schema (the five built-in scalars are always present) -/
+def gqlKind (s : Coerce.ISchema) (n : String) : Option Gql.Kind :=
+  match s.get? n with
+  | some .scalar => some .scalar
+  | some (.enum _) => some .enum
+  | some (.input _) => some .input
+  | some .output => some .object
+  | none => if Coerce.builtinScalars.contains n then some .scalar else none
+
+/-- the generator's environment for a configuration -/
+def envOf (cfg : Cfg) : Arguments.Env := ⟨gqlKind cfg.schema, cfg.scalars, cfg.snake⟩
 
 /-- keyword arguments of the call: one per variable the caller does not omit, under the Python
     parameter name, each with the calls the later dump of that object makes -/
@@ -173,16 +199,19 @@ structure Request where
 
 /-- generate the method for an operation, call it with the caller's values, build the request -/
 def send (env : Arguments.Env) (fns : UserFns) (async : Bool) (opName : String) (opText : String)
-    (defs : List VarDecl) (a : List AV) : Except SendErr Request :=
+    (defs : List VarDecl) (a : List AV) (cls : String := "Client") : Except SendErr Request :=
   match addMethod env .query (some opName) (defs.map (·.toVarDef)) "m" "R" opText async {} with
   | .error e => .error (.generation e)
   | .ok (m, _) =>
     match givenOf fns env.snake defs a with
     | .error _ => .error .serialization
     | .ok given =>
-      match callMethod fns m (kwOf given) with
+      match callMethod fns cls m (kwOf given) with
       | .error e => .error (.python e)
       | .ok sent =>
+        -- `**kwargs` is forwarded to `self.http_client.post(...)`: a keyword that bound no parameter
+        -- (the harness passes none on purpose) is httpx's "unexpected keyword argument"
+        if !sent.extra.isEmpty then .error (.python (.typeError "unexpected keyword argument")) else
         match payloadOf sent.variables with
         | none => .error .serialization
         | some vars => .ok ⟨sent.query, vars, sent.calls ++ dumpCallsOf m.locals.query given⟩
